@@ -5,6 +5,7 @@ import io
 import logging
 
 from common import load_impl
+from common import exc_name  # noqa: E402
 
 DIFFICULTIES = ["Easy", "Medium", "Hard", "Expert"]
 # the .chart format's own table (Moonscraper): section-name suffix per instrument
@@ -483,7 +484,7 @@ def block_alignment_records(prop, kind, quick=True, straddle=False):
                         chart = Chart.from_filepath(Path(p))
                     got = observed_section(chart, kind)
                 except Exception as e:  # noqa: BLE001
-                    got = ["raised", type(e).__name__]
+                    got = ["raised", exc_name(e)]
                 recs.append({"id": rid, "props": [prop], "kind": "blocks", "what": "same-events-wherever-a-block-boundary-falls",
                              "a": json_digest(expected), "b": json_digest(got), "first_difference": first_difference(expected, got),      # (a string: TLC's JSON reader has no null)
                              "layout": {"section": kind, "unit": unit, "shift": sh, "units": nunits, "via": via, "straddle": straddle, "chars": len(text)}})
@@ -553,7 +554,7 @@ def huge_length_records(prop):
         text = chart_text(res=96000000, sync=["0 = TS 4", "0 = B 120000", "2500 = B 90000"], tracks={"ExpertSingle": body})
         kind, val = outcome(text)
         if kind == "raise":
-            got = ["raised", type(val).__name__]
+            got = ["raised", exc_name(val)]
         else:
             tr = [x for _, dd in val.instrument_tracks.items() for _, x in dd.items()][0]
             got = [[int(e.tick), (int(e.sustain) if isinstance(e.sustain, int) else [None if x is None else int(x) for x in e.sustain]),
